@@ -62,6 +62,8 @@ type Prog struct {
 	lo          *LockOrder
 	vf          *VFlow
 	bce         *BCE
+	units       map[*ssa.Function]map[*ssa.Function]bool
+	renamedKnown map[string]map[*ssa.Function]bool // per package: known functions found under a new name
 }
 
 func loadEnv(cfg Config) []string {
